@@ -651,7 +651,8 @@ void nsync_yield_ (void) {
 	F[me].dm.n = 0; F[me].dm.overflow = 0; F[me].dm.active = 1; F[me].dm.depth = F[me].ncs - 1;
 }
 void *nsync_per_thread_waiter_ (void (*dest) (void *)) { (void)dest; return cur >= 0 ? F[cur].tls_waiter : NULL; }
-void nsync_set_per_thread_waiter_ (void *v, void (*dest) (void *)) { if (cur >= 0) { F[cur].tls_waiter = v; F[cur].dest = dest; } }
+void (*mc_tls_listener) (int fiber, void *w);
+void nsync_set_per_thread_waiter_ (void *v, void (*dest) (void *)) { if (cur >= 0) { F[cur].tls_waiter = v; F[cur].dest = dest; if (mc_tls_listener) mc_tls_listener (cur, v); } }
 
 /* A spin iteration that read the clock depends on it: the clock word joins the reader's delta map
    (a tick then un-parks it).  Iterations that never look at the clock are not disturbed by ticks. */
